@@ -249,6 +249,22 @@ class CompositeExchangeMove(CompositeMove[ExchangeMove]):
 
         self.bias_towards_insert: float = 0.5
 
+    def to_dict(self) -> dict[str, Any]:
+        """
+        Convert the `CompositeExchangeMove` object to a dictionary.
+
+        Returns
+        -------
+        dict[str, Any]
+            A dictionary representation of the `CompositeExchangeMove` object.
+        """
+        dictionary = super().to_dict()
+        dictionary.setdefault("attributes", {})[
+            "bias_towards_insert"
+        ] = self.bias_towards_insert
+
+        return dictionary
+
     def __call__(self, context: ExchangeContext) -> bool:
         """
         Perform the composite exchange move. The following steps are performed:
